@@ -67,6 +67,59 @@ class D(RenderDriver):
                         return "skia-stroker-tight-curvature"
                     if RSK.has_retraced_edge(lf.cmds):
                         return "skia-stroke-of-retraced-edge"
+                    # the raw stroker output is right here, the engine's own simplify(fix_winding=True) of it is not
+                    raw = RSK.engine_direct_contains(lf, p, simplify=False)
+                    if raw is not None and raw == ideal:
+                        return "skia-simplify-corrupts-stroke-outline"
+            return self.engine_boundary(doc, src, dst, p, eps)
         except Exception:
             return None
+        return None
+
+    def engine_boundary(self, doc, src, dst, p, eps):
+        """Attribution at the engine boundary: re-convert with a recorder on svg_pathops.stroke.
+        For the call whose arguments are exactly what SVG prescribes for a stroked source shape
+        (same parameters, same curve) and whose result disagrees with the ideal region at the
+        witness point: if the engine's raw stroker outline (same arguments, no simplify) is right
+        and its simplify(fix_winding=True) is what breaks it, the deviation is the engine's."""
+        from picomon import conv
+        from picomon.monitors import strokemon
+        from picomon.ref import render as RR, stroke as RSK, curvecmp as CC, pathgeom as PG
+
+        strokemon.install()
+        del strokemon.CALLS[:]
+        strokemon.STATE["record"] = True
+        try:
+            conv.convert(doc)
+        finally:
+            strokemon.STATE["record"] = False
+        calls = list(strokemon.CALLS)
+        del strokemon.CALLS[:]
+        for lf in src.leaves():
+            if not isinstance(lf, RR.Stroke) or lf.inv is None:
+                continue
+            ideal = RSK.query(lf, p, src.stroke_delta, eps)
+            if ideal is None:
+                continue
+            a, b, c, d, e, f = lf.inv
+            pl = (a * p[0] + c * p[1] + e, b * p[0] + d * p[1] + f)
+            P = lf.params
+            for call in calls:
+                if (call["cap"], call["join"]) != (P["cap"], P["join"]) or abs(call["width"] - P["width"]) > 1e-9 or abs(call["miterlimit"] - P["miterlimit"]) > 1e-9:
+                    continue
+                if [round(v, 9) for v in call["dashes"]] != [round(v, 9) for v in P["dashes"]] or (P["dashes"] and abs(call["offset"] - P["offset"]) > 1e-9):
+                    continue
+                try:
+                    ok, _, _ = CC.same_curve(lf.cmds, call["cmds"], curve_tol=3e-4 * CC.max_arc_radius(lf.cmds))
+                except Exception:
+                    ok = False
+                if not ok:
+                    continue
+                got = PG.winding(pl, PG.flatten(call["result"], tol=1e-3)) != 0
+                if got == ideal:
+                    continue
+                raw = PG.winding(pl, PG.flatten(strokemon.engine(call, simplify=False), tol=1e-3)) != 0
+                simp = PG.winding(pl, PG.flatten(strokemon.engine(call, simplify=True), tol=1e-3)) != 0
+                if raw == ideal and simp == got:
+                    return "skia-simplify-corrupts-stroke-outline"
         return None
